@@ -25,7 +25,9 @@ EXTENDS Integers, Sequences, FiniteSets, TLC
 CONSTANTS
     N,          \* number of non-genesis blocks; genesis is block 0
     WORKS,      \* set of per-block work values, e.g. {1} or {1,2}
-    FLAWS,      \* subset of {"sanity","context","connect"}: stages a flawed block may have
+    FLAWS,      \* subset of {"sanity","context","bcontext","connect"}: stages a flawed block may have
+                \* ("context" = a contextual HEADER rule, visible to header-first delivery;
+                \*  "bcontext" = a contextual rule about the block's transactions: the header alone passes)
     HEADERS,    \* BOOLEAN: header-first deliveries enabled
     MANUAL,     \* max number of InvalidateBlock/ReconsiderBlock calls per behaviour
     FLUSH,      \* BOOLEAN: explicit FlushUtxoCache calls enabled (stutter on this layer)
@@ -142,7 +144,7 @@ ConnectBest(S, b) ==
 \* maybeAcceptBlock
 MaybeAccept(S, b) ==
     IF KnownInvalid(S.idx, parent[b]) THEN [S EXCEPT !.ret = "rej_ancestor"]
-    ELSE IF Flaw(b) = "context" THEN [S EXCEPT !.ret = "rej_context"]
+    ELSE IF Flaw(b) \in {"context", "bcontext"} THEN [S EXCEPT !.ret = "rej_context"]
     ELSE ConnectBest([S EXCEPT !.idx[b].hdr = TRUE, !.idx[b].data = TRUE,
                                !.notes = S.notes], b)
 
@@ -202,7 +204,7 @@ IdealTips(ix, orp, man, ever, nman) ==
 Accept(ix, orp, man, b) ==
     IF ix[b].data \/ b \in SeqToSet(orp) THEN "dup"
     ELSE IF Flaw(b) = "sanity" THEN "mustnot"
-    ELSE IF Flaw(b) = "context" /\ ix[parent[b]].data THEN "mustnot"
+    ELSE IF Flaw(b) \in {"context", "bcontext"} /\ ix[parent[b]].data THEN "mustnot"
     ELSE IF \A x \in Anc(b) : x = G \/ (Flaw(x) = "none" /\ x \notin man) THEN "must"
     ELSE "any"
 
